@@ -775,13 +775,17 @@ def exports(f, T, depth=0):
     return out
 
 
-def visible_imports(f, S):
-    """foreign names visible inside S (not shadowed by S's own declarations)"""
+def _visible_all(f, S, depth=0):
+    """everything `SCOPE_find( S, name, ENTITY|TYPE )` can return (mirror of the model's `visible`): own declarations, then for
+    every fully USE'd schema everything THAT schema sees (recursively — including what it REFERENCEs, as the code does), the
+    partially USE'd items, the own declarations of fully REFERENCE'd schemas, the partially REFERENCE'd items"""
     s = f.find_schema(S)
-    out = {}
+    if s is None or depth > len(f.schemas) + 2:
+        return {}
+    out = {n: (S, n, k) for n, k in _own(s).items()}
     for i in s.ifaces:
         if i.kind == "use" and i.items is None:
-            for n, o in exports(f, i.schema).items():
+            for n, o in _visible_all(f, i.schema, depth + 1).items():
                 out.setdefault(n, o)
     for i in s.ifaces:
         if i.kind == "use" and i.items is not None:
@@ -800,8 +804,13 @@ def visible_imports(f, S):
             for it in i.items:
                 if it.old in src:
                     out.setdefault(it.visible(), src[it.old])
-    own = _own(s)
-    return {n: o for n, o in out.items() if n not in own}
+    return out
+
+
+def visible_imports(f, S):
+    """foreign names visible inside S (not shadowed by S's own declarations)"""
+    own = _own(f.find_schema(S))
+    return {n: o for n, o in _visible_all(f, S).items() if n not in own}
 
 
 def gen_file(rng, n_schemas=None, size=3):
